@@ -197,6 +197,8 @@ class Interp:
             a, b = self.ev(e.body, env, d + 1), self.ev(e.orelse, env, d + 1)
             if b in (("const", ""), ("const", None)):
                 return ("or-empty" if b[1] == "" else "or-none", a)
+            if a in (("const", ""), ("const", None)):       # the same choice written the other way round: `None if absent else x`
+                return ("or-empty" if a[1] == "" else "or-none", b)
             return ("ifexp", a, b, ast.unparse(e.test))
         if isinstance(e, ast.UnaryOp) and isinstance(e.op, ast.Not):
             return ("not", self.ev(e.operand, env, d + 1))
